@@ -3,40 +3,45 @@
   and JP/Props/C03.lean.
 -/
 import JP.Lemmas.QueryDefs
+import JP.Lemmas.QueryAuxSegs
 namespace JP.Lemmas
 open JP JP.Query
 
 theorem slice_refines_rfc (start stop step : Option Int) (len : Nat) :
-    codeSlice start stop step len = Rfc.sliceIndices start stop step len := by
-  sorry
+    codeSlice start stop step len = Rfc.sliceIndices start stop step len :=
+  slice_refines_rfc_aux start stop step len
 
 theorem slice_in_range (start stop step : Option Int) (len : Nat) :
-    ∀ i ∈ Rfc.sliceIndices start stop step len, 0 ≤ i ∧ i < len := by
-  sorry
+    ∀ i ∈ Rfc.sliceIndices start stop step len, 0 ≤ i ∧ i < len :=
+  slice_in_range_aux start stop step len
 
 theorem canonicalString_eq_normalName (s : Str) :
-    canonicalString s = '\'' :: Rfc.normalName s ++ ['\''] := by
-  sorry
+    canonicalString s = '\'' :: Rfc.normalName s ++ ['\''] :=
+  canonicalString_eq_normalName_aux s
 
 theorem primitive_selects_nothing (env : Env) (n : Node) (s : Sel)
-    (h : n.val.isContainer = false) : evalSel env n s = [] := by
-  sorry
+    (h : n.val.isContainer = false) : evalSel env n s = [] :=
+  primitive_selects_nothing_aux env n s h
 
 theorem sel_refines_rfc (env : Env) (renv : Rfc.REnv) (n : Node) (r : Rfc.RNode) (s : Sel)
     (hs : plainSel s = true) (hr : Represents n r) :
-    RepresentsAll (evalSel env n s) (Rfc.evalSel renv r s) := by
-  sorry
+    RepresentsAll (evalSel env n s) (Rfc.evalSel renv r s) :=
+  sel_refines_rfc_aux env renv n r s hs hr
 
 theorem segs_refines_rfc (env : Env) (renv : Rfc.REnv) (segs : List Seg) (ns : List Node)
     (rs : List Rfc.RNode) (hp : plainSegs segs = true) (hw : Rfc.wellFormedSegs segs = true)
     (hr : RepresentsAll ns rs) :
-    RepresentsAll (evalSegs env segs ns) (Rfc.evalSegs renv segs rs) := by
-  sorry
+    RepresentsAll (evalSegs env segs ns) (Rfc.evalSegs renv segs rs) :=
+  segs_refines_rfc_aux env renv segs ns rs hp hw hr
 
 theorem index_on_object (env : Env) (n : Node) (kvs : List (Str × J)) (i : Int) (h : n.val = .obj kvs) :
     evalSel env n (.index i) = evalSel env n (.name (intStr i)) ∨
     (∃ v, dictGet kvs (intStr i) = some v ∧
       (evalSel env n (.index i)).map (·.val) = [v] ∧ (evalSel env n (.name (intStr i))).map (·.val) = [v]) := by
-  sorry
+  cases hd : dictGet kvs (intStr i) with
+  | none => left; simp [evalSel, h, hd]
+  | some v =>
+    right
+    exact ⟨v, rfl, by simp [evalSel, h, hd, childNode], by simp [evalSel, h, hd, childNode]⟩
 
 end JP.Lemmas
